@@ -29,12 +29,23 @@ def plan(tier, seed):
 def run_shard(spec, acc):
     if spec['kind'] == 'ladder':
         ladderwl.shard_ladders(spec, acc, PROP)
+        import random
+        from qsmon import core
+        rng = random.Random(spec['rng'] + 77)
+        for i in range(100 if spec['tier'] == 'quick' else 4000):
+            case = ladderwl.position_case(rng)
+            core.guarded(PROP, acc, case, ladderwl.run_position_case, case, acc, PROP)
+            acc.evaluations += 1
     else:
         brokerwl.shard_broker(spec, acc, PROP, 'benign')
 
 
 def replay(case, acc):
-    brokerwl.run_case(case, acc, PROP)
+    if case.get('kind') == 'position':
+        from qsmon import core
+        core.guarded(PROP, acc, case, ladderwl.run_position_case, case, acc, PROP)
+    else:
+        brokerwl.run_case(case, acc, PROP)
 
 
 def finish(acc, tier):
